@@ -8,6 +8,7 @@ import (
 	"bytes"
 	"fmt"
 	"strings"
+	"sync"
 
 	"golang.org/x/net/http2/hpack"
 	vu "golang.org/x/net/internal/verifutil"
@@ -81,6 +82,10 @@ func genEncoded(r *vu.Rng) []byte {
 }
 
 func gen(r *vu.Rng, i int) []string {
+	if i == 256 || i == 257 || (i > 257 && i%6000 == 0) {
+		// concurrent FIRST use of the lazily initialised decode tree
+		return []string{fmt.Sprintf("race %d %d %d", []int{8, 4, 16}[i%3], 250, r.Uint64()%1000000)}
+	}
 	if i < 256 {
 		// every single byte once: pins each table entry to the RFC 7541 code
 		s := vu.Hex([]byte{byte(i)})
@@ -175,10 +180,63 @@ func exec(ops []string, o *vu.Out) {
 			})
 			o.Op(op, res)
 			o.Stat("decmax:" + strings.Join(strings.Fields(res)[:1], ""))
+		case t[0] == "race" && len(t) == 4:
+			k, trials, seed := vu.Atoi(t[1]), vu.Atoi(t[2]), uint64(vu.Atoi(t[3]))
+			if k < 1 || k > 64 || trials < 1 || trials > 100000 {
+				o.Op(op, "bad-op")
+				continue
+			}
+			bad, first := raceFirstUse(k, trials, seed)
+			if bad > 0 {
+				o.Fail("", fmt.Sprintf("concurrent first use of the decode tree: %d of %d decodes of a valid canonical encoding failed (%s)", bad, k*trials, first))
+				o.Op(op, fmt.Sprintf("err %d", bad))
+			} else {
+				o.Op(op, "ok")
+			}
 		default:
 			o.Op(op, "bad-op")
 		}
 	}
+}
+
+// raceFirstUse: trials times, put the package's lazy decode tree back to "not built" and let k
+// goroutines decode canonical encodings at once from a start barrier. Every decode(encode(s)) must be s.
+func raceFirstUse(k, trials int, seed uint64) (bad int, first string) {
+	r := vu.NewRng(seed)
+	type job struct{ s, enc []byte }
+	jobs := make([]job, k)
+	for i := range jobs {
+		s := genString(r)
+		if len(s) == 0 {
+			s = []byte("www.example.com")
+		}
+		jobs[i] = job{s, rfcEncode(s)}
+	}
+	var mu sync.Mutex
+	for t := 0; t < trials; t++ {
+		hpack.VerifResetHuffmanRoot()
+		start := make(chan struct{})
+		var wg sync.WaitGroup
+		for i := 0; i < k; i++ {
+			wg.Add(1)
+			go func(j job) {
+				defer wg.Done()
+				<-start
+				got, err := hpack.HuffmanDecodeToString(j.enc)
+				if err != nil || got != string(j.s) {
+					mu.Lock()
+					bad++
+					if first == "" {
+						first = fmt.Sprintf("HuffmanDecode(%x) = %x, %v; want %x", j.enc, got, err, j.s)
+					}
+					mu.Unlock()
+				}
+			}(jobs[i])
+		}
+		close(start)
+		wg.Wait()
+	}
+	return bad, first
 }
 
 // refEncode is a naive bit-by-bit reference encoder built from the table entries.
